@@ -40,7 +40,12 @@ func recordMain(args []string) {
 		}
 	}
 	b, _ := json.Marshal(out)
-	os.WriteFile(os.Getenv("VERIF_REC_OUT"), b, 0o644)
+	// atomically: a reader that sees the file sees all of it (the fake_remote template starts
+	// the command in the background, the harness may look while it is being written)
+	dst := os.Getenv("VERIF_REC_OUT")
+	if os.WriteFile(dst+".tmp", b, 0o644) == nil {
+		os.Rename(dst+".tmp", dst)
+	}
 }
 
 var c18Tokens = []string{"__MRO_MEM_GB__", "__MRO_ACCOUNT__", "__MRO_THREADS__", "__MRO_CMD__", "__MRO_RESOURCES__",
